@@ -41,7 +41,7 @@ LEVEL_TEXT = ('Each observed call of the neutron calculators is re-computed by a
               'tables, the equations of the neutron_scattering docstring, own interpolation and masses) and all seven outputs are compared '
               'at every wavelength; single atoms and energy-table nodes are swept exhaustively, compounds, densities, wavelengths and '
               'call shapes are a seeded random sample.'
-              ' Added in rounds 4-7: every energy-dependent entry also on a private table after nsf.init(reload=True); zero-count atoms listed first.')
+              ' Added in rounds 4-7: every energy-dependent entry also on a private table after nsf.init(reload=True); zero-count atoms listed first. Added in round 8: natural_density= for compounds with ions and isotope ions; the list-structure route [(count, atom)] with counts as numpy int32/int64/float64, int, bool of the same value.')
 LEVEL_NOTE = ('Tolerance 1e-10 relative; absolute floors only where a value is the residue of a cancellation (clipped sigma_s - sigma_c, '
               'mixed-sign scattering-length sums), DESIGN 3.7. Where documentation and code agree on a wrong equation the monitor is blind.')
 SHARDS = {'quick': 8, 'thorough': 16}
